@@ -394,7 +394,10 @@ def run_case(c):
                 emit(f"(OView {cnat(i)} {cnat(w)})")
             elif act == 'move':
                 cq_ = [i for i in owners if handles[i].kind == 'cqm']
-                ms = [i for i in owners if handles[i].kind in ('bqm', 'qm') and np.dtype(handles[i].obj.dtype) != np.dtype(object)]
+                # a CQM accepts neither object-dtype BQMs nor BQMs backed by a VartypeView (bqm.spin, or a
+                # deepcopy of one): add_constraint_from_model raises TypeError "No matching signature found"
+                ms = [i for i in owners if handles[i].kind in ('bqm', 'qm') and np.dtype(handles[i].obj.dtype) != np.dtype(object)
+                      and type(getattr(handles[i].obj, 'data', None)).__name__ != 'VartypeView']
                 if not cq_ or not ms:
                     if not cq_ and ms and len(handles) < 5:
                         handles.append(Handle(dimod.ConstrainedQuadraticModel(), 'cqm'))
